@@ -541,8 +541,15 @@ func genJPEG(rt *rapid.T, maxICC int, exhaustPerm []int) Case {
 		}
 	}
 	var segs []build.Seg
+	fillBytes := rapid.IntRange(0, 4).Draw(rt, "fillbytes") == 0
 	for _, it := range items {
+		if fillBytes && rapid.IntRange(0, 2).Draw(rt, "fillhere") == 0 {
+			it.seg.Fill = rapid.SampledFrom([]int{1, 2, 3, 50}).Draw(rt, "nfill") // 0xFF fill bytes before the marker (T.81 B.1.1.2)
+		}
 		segs = append(segs, it.seg)
+	}
+	if fillBytes {
+		note += ", fill bytes before some markers"
 	}
 	c.Data, _ = build.JPEG{Segs: segs, SOS: []byte{3, 1, 0, 2, 0x11, 3, 0x11, 0, 63, 0}, Entropy: []byte{9, 8, 7}}.Bytes()
 	c.Expect = jpegModel(items)
